@@ -13,20 +13,31 @@ RULE = ('for every registered JSON-RPC method (28, taken from REGISTER_APIFUNCTI
         'messages with no/newer/older "ts"; check results from the command endpoint; '
         'event::ExecuteCommand with an "endpoint" argument (forwarding): sender relation x target endpoint (none, unknown name, receiver itself, own-zone peer, child, grandchild, parent, sibling, unrelated) x claimed originZone x checkable (missing, own zone, child, grandchild, global, zone-less) x capability of the child endpoints x accept_commands, receiver being / not being the routing master of its zone, receivers at the root, in the middle and at a leaf - observed: which zones got an event::ExecuteCommand / event::ExecutedCommand queued; '
         'config::UpdateObject with the zone named by the message (none, unknown name, own, parent, child, sibling, unrelated, global) x zone of the existing object / of the config text of the new object (observed: zone of the created object), config::DeleteObject of zoned runtime objects; '
-        'then random forests (4-9 zones, random receiver, sender, object, flags, forwarding targets). '
+        'related objects in DIFFERENT zones (family cross-zone-objects: 28 groups Host / its Service / the attached Notification-on-service, Notification-on-host, Comment, Downtime with zone attributes '
+        'set independently to the receiver\'s zone, parent, child, grandchild, sibling, unrelated, global, none): every handler that names an object x every choice of the object named (host / service, '
+        'the service\'s / the host\'s notification, comment / downtime / an unknown object type) x the senders for which access to the object changed differs from access to a related object, '
+        'the trusted peer relaying for other zones, other receivers - observed additionally: the zones of ALL fixture objects whose state changed (plain setters); '
+        'local command execution (family command-kinds): command_type check / event / notification / unknown x "source" present or not x accept_commands x command exists or not x deadline passed x '
+        'params.host naming a local checkable or not x entitled and other senders - observed: which kind of native command ran (after the remote-check thread drained) and what was queued for the sender '
+        '(ExecutedCommand exit code / UNKNOWN check result); '
+        'then random forests (4-9 zones, random receiver, sender, object, flags, forwarding targets, cross groups, command kinds). '
         'Each message goes through the real JsonRpcConnection::MessageHandler with parameters that are prepared so that an accepted message has a visible effect. '
         'non-trivial = the case contains at least one applied and one refused message; distinct = distinct script text')
 TRUSTED = ['model: coq/Msg/MzModel.v (transcription of Zone::IsChildOf/CanAccessObject, JsonRpcConnection ctor + MessageHandler origin construction, '
            'and one normalised origin-check pattern per handler), coq/Msg/MzFwd.v (the "endpoint" branch of ExecuteCommandAPIHandler, SyncRelayMessage/RelayMessageOne at zone granularity), '
-           'coq/Msg/MzCfg.v (params.zone of config::UpdateObject)',
+           'coq/Msg/MzCfg.v (params.zone of config::UpdateObject), coq/Msg/MzObj.v (which object\'s zone the entitlement test reads: follows the generated fact f_mz_tested), '
+           'coq/Msg/MzExec.v (ClusterEvents::ExecuteCheckFromQueue per command type; what a command reports after it ran is not modelled - the harness\'s native commands only count executions)',
            'source facts re-extracted each run: tools/facts_c13.py normalises the refusal checks of all REGISTER_APIFUNCTION handlers into coq/Facts/Facts_c13.v, '
            'lists every registration (method, handler function, file; number of macro uses; registrations bypassing the macro), decides per handler whether the recognised checks '
            'stand at the top level and precede every effect (regex-based scan: pure accessors and writes to message-local data are not effects), and recognises the shapes of the forwarding branch, '
-           'of RelayMessageOne/SyncRelayMessage and of the params.zone test; '
+           'of RelayMessageOne/SyncRelayMessage and of the params.zone test; per handler the relation between the variable handed to CanAccessObject and the variables the handler changes after its checks '
+           '(addressed / checkable_of / host_of / other / none / unknown - unknown is logged and left to the run); for ExecuteCheckFromQueue that the accept_commands branch is a top-level statement '
+           'every path of which returns (else the flag is unrecognised), its reply shape and the three command-type branches (logged when not recognised); '
            'the specification side (which class each method belongs to, coq/Msg/MzModel.v mz_class_table) is hand-written - it is the statement\'s classification of the methods',
            'harness/ops_mz.cpp: builds zones/endpoints/objects from config text, sets ApiListener::m_Instance/m_LocalEndpoint/accept flags and Endpoint capabilities directly (no PKI, no network), '
            'calls the private JsonRpcConnection::MessageHandler on a connection object over an unconnected stream, decodes the JSON strings queued for the other endpoints; '
-           'script fields oz= (zone attribute of the addressed object) and ce= (sender is the command endpoint) are computed by the generator from the same forest; '
+           'script fields oz= (zone attribute of the object the handler CHANGES), ckz= / hz= (zone of its checkable / host) and ce= (sender is the command endpoint) are computed by the generator from the same forest; '
+           'the harness brings the related checkable of a cross group into the same prepared state as the one named (so that a stray write to it shows); '
            'ocaml/ops_mz.ml derives "who is connected" (two endpoints per zone, receiver a = routing master) from the script',
            'hook H1 (virtual clock) in lib/base/utility.cpp']
 ASSUMPTIONS = ['objects held by a node are in its own zone, below it, or global (hypothesis mz_placed of C13_sound; cases outside it are still compared with the model)',
@@ -34,7 +45,10 @@ ASSUMPTIONS = ['objects held by a node are in its own zone, below it, or global 
                'forwarding theorems about relay zones assume no global zone among the ancestors of the target zone (global zones have no endpoints and no children in any generated forest)',
                'the relay model is at zone granularity: which endpoint of a zone gets the copy (std::set order of Endpoint pointers) is not modelled',
                'reading of the statement for forwarded commands: accept_commands governs EXECUTION on a node; passing a command down to a child zone is decided by zone relations alone (that is what the code does: C13_forward_ignores_accept_flags)',
-               'config::Update is exercised up to the staging directory (no validation child process)']
+               'config::Update is exercised up to the staging directory (no validation child process)',
+               'the changed-objects observation (chz=) is made for plain setters only (SetNextCheck, SetLastCheckStarted, SetNextNotification, SetForceNext*, Set/ClearAcknowledgement, UpdateExecutions, SetRemovalInfo): '
+               'a check result legitimately triggers follow-up processing on other objects of the receiver',
+               'no registered handler names a Dependency; config::UpdateObject / DeleteObject decide by the sender\'s zone and accept_config only, never by the zone of the object (C13_update_object_zone_param)']
 
 METHODS = ['event::CheckResult', 'event::SetNextCheck', 'event::SetLastCheckStarted', 'event::SetStateBeforeSuppression',
            'event::SetSuppressedNotifications', 'event::SetSuppressedNotificationTypes', 'event::SetNextNotification',
@@ -363,6 +377,11 @@ def generate(seed, tier):
             msgs.append(('command-kinds', F, msg(F, recv, snd, 'event::ExecuteCommand', rnd.choice([2, 3, 'nz']), auth=auth, ident=ident,
                                                 claim=claim, ak=ak, ac=rnd.randint(0, 1), ts=rnd.choice(['none', 'none', 'none', 'new', 'old']),
                                                 q=dict(ct=ct, src=src, dl=0, cx=cx, hl=rnd.randint(0, 1)))))
+    for snd in ('1a', '1b', '2b'):          # entitled sender, flag on, command present: every kind with and without "source"
+        for ct in KINDS:
+            for src in (0, 1):
+                msgs.append(('command-kinds', F, msg(F, recv, snd, 'event::ExecuteCommand', rnd.choice([2, 3, 'nz']), ak=1, ac=rnd.randint(0, 1),
+                                                    q=dict(ct=ct, src=src, dl=0, cx=1, hl=rnd.randint(0, 1)))))
     for _ in range(int(16 * scale)):       # deadline in the past (only read with "source")
         snd = rnd.choice(['1a', '2b', '1b'])
         msgs.append(('command-kinds', F, msg(F, recv, snd, 'event::ExecuteCommand', 2, ak=rnd.randint(0, 1),
@@ -583,7 +602,27 @@ def extra_stats(cases, impl):
             if 'zp' in f:
                 zk = 'none' if f['zp'] == 'e' else 'unknown-name' if f['zp'] == 'x' else ('same-as-object' if f['zp'] == f.get('oz') else 'other-known-zone')
                 zpc[zk + (' applied' if ' app=1' in o else ' not_applied')] += 1
-    return {'exec_forwarding': dict(sorted(fwd.items())), 'update_object_zone_named_by_message': dict(sorted(zpc.items())),
+    cross = collections.Counter()
+    kinds_q = collections.Counter()
+    for c in cases:
+        ml = _msg_lines(c)
+        il = [l for l in impl.get(c['id'], []) if l.startswith('msg ')]
+        for s, o in zip(ml, il):
+            f = dict(t.split('=', 1) for t in s.split()[1:] if '=' in t)
+            ob = dict(t.split('=', 1) for t in o.split('#')[0].split()[1:] if '=' in t)
+            if f.get('obj', '').startswith('x'):
+                rel = 'related-zone-differs' if (f.get('ckz', f['oz']) != f['oz'] or f.get('hz', f['oz']) != f['oz']) else 'same-zones'
+                cross[rel + (' applied' if ob.get('app') == '1' else ' not_applied')] += 1
+                if 'chz' in ob:
+                    cross['changed_objects_observed'] += 1
+                    if ',' in ob['chz']:
+                        cross['more_than_one_zone_changed'] += 1
+            if 'ct' in f:
+                k = 'ct=%s src=%s ak=%s cx=%s' % (f['ct'], f['src'], f['ak'], f['cx'])
+                kinds_q[k + ' -> ex=%s rp=%s' % (ob.get('ex'), ob.get('rp'))] += 1
+                kinds_q['executed' if ob.get('ex', '-') != '-' else 'not_executed'] += 1
+    return {'cross_zone_objects': dict(sorted(cross.items())), 'command_kinds': dict(sorted(kinds_q.items())),
+            'exec_forwarding': dict(sorted(fwd.items())), 'update_object_zone_named_by_message': dict(sorted(zpc.items())),
             'messages_under_the_receivers_own_identity': selfc,
             'messages_applied': applied, 'messages_refused_or_inert': refused,
             'accepted_messages_with_visible_effect': 'all: the model line app=1 means "authorised and effectful"; any accepted message without a visible change would be a trace mismatch (mismatches are reported above)',
